@@ -20,23 +20,23 @@ inductive ObjSim (φ : Addr → Option Addr) : Obj → Obj → Prop where
   | node {cls : String} {A A' : List (Key × PVal)} : AttrsSim φ A A' → ObjSim φ (.node cls A) (.node cls A')
   | var (ty : VType) (v : Data) (md : Meta) : ObjSim φ (.var ty v md) (.var ty v md)
 
-theorem OptRel.mono {φ φ' : Addr → Option Addr} (hle : PhiLe φ φ') {x y : Option PVal} (h : OptRel φ x y) :
+theorem optRel_mono {φ φ' : Addr → Option Addr} (hle : PhiLe φ φ') {x y : Option PVal} (h : OptRel φ x y) :
     OptRel φ' x y := by
   rcases h with h | ⟨v, w, h1, h2, h3⟩
   · exact Or.inl h
   · exact Or.inr ⟨v, w, h1, h2, ValRel.mono hle h3⟩
 
-theorem AttrsSim.mono {φ φ' : Addr → Option Addr} (hle : PhiLe φ φ') {A A' : List (Key × PVal)}
-    (h : AttrsSim φ A A') : AttrsSim φ' A A' := fun k => (h k).mono hle
+theorem attrsSim_mono {φ φ' : Addr → Option Addr} (hle : PhiLe φ φ') {A A' : List (Key × PVal)}
+    (h : AttrsSim φ A A') : AttrsSim φ' A A' := fun k => optRel_mono hle (h k)
 
-theorem ObjSim.mono {φ φ' : Addr → Option Addr} (hle : PhiLe φ φ') {o o' : Obj} (h : ObjSim φ o o') :
+theorem objSim_mono {φ φ' : Addr → Option Addr} (hle : PhiLe φ φ') {o o' : Obj} (h : ObjSim φ o o') :
     ObjSim φ' o o' := by
   cases h with
-  | node ha => exact .node (ha.mono hle)
+  | node ha => exact .node (attrsSim_mono hle ha)
   | var ty v md => exact .var ty v md
 
 /-- C03's relation (attribute lists compared after sorting) implies the map relation -/
-theorem ObjRel.toSim {φ : Addr → Option Addr} {o o' : Obj} (h : ObjRel φ o o') : ObjSim φ o o' := by
+theorem objRel_toSim {φ : Addr → Option Addr} {o o' : Obj} (h : ObjRel φ o o') : ObjSim φ o o' := by
   cases h with
   | node hk =>
     refine .node (fun k => ?_)
@@ -49,7 +49,7 @@ theorem ObjRel.toSim {φ : Addr → Option Addr} {o o' : Obj} (h : ObjRel φ o o
 def comp (φ χ : Addr → Option Addr) (a : Addr) : Option Addr := (φ a).bind χ
 
 mutual
-  theorem ValRel.comp {φ χ : Addr → Option Addr} : ∀ {v w u : PVal}, ValRel φ v w → ValRel χ w u → ValRel (comp φ χ) v u
+  theorem valRel_comp {φ χ : Addr → Option Addr} : ∀ {v w u : PVal}, ValRel φ v w → ValRel χ w u → ValRel (comp φ χ) v u
     | _, _, _, .static s, h2 => by cases h2; exact .static s
     | _, _, _, .array d, h2 => by cases h2; exact .array d
     | _, _, _, .none, h2 => by cases h2; exact .none
@@ -58,25 +58,25 @@ mutual
       | ref h' => exact .ref (by simp [Nnx.comp, h, h'])
     | _, _, _, .seq h, h2 => by
       cases h2 with
-      | seq h' => exact .seq (ValsRel.comp h h')
+      | seq h' => exact .seq (valsRel_comp h h')
     | _, _, _, .dict h, h2 => by
       cases h2 with
-      | dict h' => exact .dict (KVsRel.comp h h')
-  theorem ValsRel.comp {φ χ : Addr → Option Addr} : ∀ {xs ys zs : List PVal}, ValsRel φ xs ys → ValsRel χ ys zs →
+      | dict h' => exact .dict (kvsRel_comp h h')
+  theorem valsRel_comp {φ χ : Addr → Option Addr} : ∀ {xs ys zs : List PVal}, ValsRel φ xs ys → ValsRel χ ys zs →
       ValsRel (comp φ χ) xs zs
     | _, _, _, .nil, h2 => by cases h2; exact .nil
     | _, _, _, .cons h t, h2 => by
       cases h2 with
-      | cons h' t' => exact .cons (ValRel.comp h h') (ValsRel.comp t t')
-  theorem KVsRel.comp {φ χ : Addr → Option Addr} : ∀ {xs ys zs : List (Key × PVal)}, KVsRel φ xs ys → KVsRel χ ys zs →
+      | cons h' t' => exact .cons (valRel_comp h h') (valsRel_comp t t')
+  theorem kvsRel_comp {φ χ : Addr → Option Addr} : ∀ {xs ys zs : List (Key × PVal)}, KVsRel φ xs ys → KVsRel χ ys zs →
       KVsRel (comp φ χ) xs zs
     | _, _, _, .nil, h2 => by cases h2; exact .nil
     | _, _, _, .cons h t, h2 => by
       cases h2 with
-      | cons h' t' => exact .cons (ValRel.comp h h') (KVsRel.comp t t')
+      | cons h' t' => exact .cons (valRel_comp h h') (kvsRel_comp t t')
 end
 
-theorem OptRel.comp {φ χ : Addr → Option Addr} {x y z : Option PVal} (h1 : OptRel φ x y) (h2 : OptRel χ y z) :
+theorem optRel_comp {φ χ : Addr → Option Addr} {x y z : Option PVal} (h1 : OptRel φ x y) (h2 : OptRel χ y z) :
     OptRel (comp φ χ) x z := by
   rcases h1 with ⟨rfl, rfl⟩ | ⟨v, w, rfl, rfl, hv⟩
   · rcases h2 with ⟨_, rfl⟩ | ⟨w, u, hw, _, _⟩
@@ -85,14 +85,14 @@ theorem OptRel.comp {φ χ : Addr → Option Addr} {x y z : Option PVal} (h1 : O
   · rcases h2 with ⟨hw, _⟩ | ⟨w', u, hw, rfl, hu⟩
     · cases hw
     · cases hw
-      exact Or.inr ⟨v, u, rfl, rfl, hv.comp hu⟩
+      exact Or.inr ⟨v, u, rfl, rfl, valRel_comp hv hu⟩
 
-theorem ObjSim.comp {φ χ : Addr → Option Addr} {o1 o2 o3 : Obj} (h1 : ObjSim φ o1 o2) (h2 : ObjSim χ o2 o3) :
+theorem objSim_comp {φ χ : Addr → Option Addr} {o1 o2 o3 : Obj} (h1 : ObjSim φ o1 o2) (h2 : ObjSim χ o2 o3) :
     ObjSim (comp φ χ) o1 o3 := by
   cases h1 with
   | node ha =>
     cases h2 with
-    | node hb => exact .node (fun k => (ha k).comp (hb k))
+    | node hb => exact .node (fun k => optRel_comp (ha k) (hb k))
   | var ty v md =>
     cases h2 with
     | var _ _ _ => exact .var ty v md
@@ -105,10 +105,10 @@ structure IsoM (h : Heap) (r : PVal) (h' : Heap) (r' : PVal) (φ : Addr → Opti
   inj : ∀ a b c, φ a = some c → φ b = some c → a = b
   obj : ∀ a b, φ a = some b → ∃ o o', h[a]? = some o ∧ h'[b]? = some o' ∧ ObjSim φ o o'
 
-theorem Iso.toM {h h' : Heap} {r r' : PVal} {φ : Addr → Option Addr} (i : Iso h r h' r' φ) : IsoM h r h' r' φ :=
+theorem iso_toM {h h' : Heap} {r r' : PVal} {φ : Addr → Option Addr} (i : Iso h r h' r' φ) : IsoM h r h' r' φ :=
   ⟨i.root, i.inj, fun a b hab => by
     obtain ⟨o, o', h1, h2, h3⟩ := i.obj a b hab
-    exact ⟨o, o', h1, h2, h3.toSim⟩⟩
+    exact ⟨o, o', h1, h2, objRel_toSim h3⟩⟩
 
 /-- one step along a path, on related values -/
 theorem stepM_corr {h h' : Heap} {r r' : PVal} {φ : Addr → Option Addr} (iso : IsoM h r h' r' φ) {v v' : PVal}
